@@ -266,6 +266,7 @@ def run(ctx: Ctx):
     _write_back_source(ctx)
     _ref_boundary_decision_table(ctx)
     _deprecated_boolean_fix(ctx)
+    _dimensionality_flag_and_discovery(ctx)
     plumbing(ctx, "S7")
     return dict(
         explanation=(
@@ -908,6 +909,82 @@ def _ref_boundary_decision_table(ctx: Ctx):
            f"repairable one shadows it: a token with a start but no end has end = -1 < start)", rel, loop.lineno,
            sample=dict(points=npts, row_variable=rv))
 
+
+
+def _dimensionality_flag_and_discovery(ctx: Ctx):
+    """S11: (a) 'references of one dimensionality' is enforced by a three-state flag (nothing seen / 2-D seen / 1-D seen): each
+    dimensionality must both refuse the other state and RECORD its own, else a directory whose first references are of the
+    unrecorded kind passes with mixed references. (b) The utterances of a data set are those present in every sub-directory in
+    use: the alignment and the reference id sets are each intersected whenever their sub-directory is in use, independently of the
+    other."""
+    from sa.inteval import NotEvaluable, int_eval
+    col, pkg = ctx.col, ctx.pkg
+    f = pkg.func("_datasets::_info_and_validate")
+    rel = f.module.relname
+    pm = parent_map(f.node)
+    # (a) flags: locals initialised to None that are compared with `is True` / `is False`
+    flags = {}
+    for n in own_nodes(f.node):
+        if isinstance(n, ast.Compare) and len(n.ops) == 1 and isinstance(n.ops[0], (ast.Is, ast.IsNot, ast.Eq, ast.NotEq)) \
+                and isinstance(n.left, ast.Name) and isinstance(n.comparators[0], ast.Constant) and isinstance(n.comparators[0].value, bool):
+            flags.setdefault(n.left.id, dict(tested=set(), stored=set()))["tested"].add(n.comparators[0].value)
+    for n in own_nodes(f.node):
+        if isinstance(n, ast.Assign) and isinstance(n.value, ast.Constant) and isinstance(n.value.value, bool):
+            for t in n.targets:
+                if isinstance(t, ast.Name) and t.id in flags:
+                    flags[t.id]["stored"].add(n.value.value)
+    tri = {k: v for k, v in flags.items() if v["tested"] == {True, False}}
+    col.floor("tri_state_flags", len(tri), 1)
+    for k, v in sorted(tri.items()):
+        col.ob("G16", "S11", f"{rel}::_info_and_validate::{k}::both-states-recorded", v["stored"] == {True, False},
+               f"`{k}` is tested against both True and False but only {sorted(v['stored'])} is ever stored: the kind of reference that "
+               f"does not record itself is not remembered, so a directory whose first references are of that kind and later ones of the "
+               f"other kind is accepted although its references are not of one dimensionality", rel, f.line, sample=sorted(v["stored"]))
+    # (b) discovery
+    g = pkg.func("_datasets::SpectDataSet.find_utt_ids")
+    pmg = parent_map(g.node)
+    inter = []
+    for n in own_nodes(g.node):
+        if isinstance(n, ast.AugAssign) and isinstance(n.op, ast.BitAnd) and isinstance(n.target, ast.Name) and isinstance(n.value, ast.Name):
+            inter.append(n)
+        elif isinstance(n, ast.Assign) and isinstance(n.value, ast.BinOp) and isinstance(n.value.op, ast.BitAnd) and len(n.targets) == 1 \
+                and isinstance(n.targets[0], ast.Name) and u(n.targets[0]) in (u(n.value.left), u(n.value.right)):
+            inter.append(n)
+    rets = [r for r in own_nodes(g.node) if isinstance(r, ast.Return) and isinstance(r.value, ast.Name)]
+    main = rets[-1].value.id if rets else None
+    bad = None
+    applied_any = False
+    try:
+        for ha in (True, False):
+            for hr in (True, False):
+                got = set()
+                for n in inter:
+                    tgt = n.target.id if isinstance(n, ast.AugAssign) else n.targets[0].id
+                    if tgt != main:
+                        continue
+                    other = u(n.value) if isinstance(n, ast.AugAssign) else (u(n.value.right) if u(n.value.left) == tgt else u(n.value.left))
+                    kind = "ali" if "ali" in other else "ref" if "ref" in other else None
+                    if kind is None:
+                        continue
+                    reach = True
+                    for t, pol in guards_of(pmg, n):
+                        try:
+                            if bool(int_eval(t, {"self.has_ali": ha, "self.has_ref": hr})) != pol:
+                                reach = False
+                        except NotEvaluable:
+                            pass
+                    if reach:
+                        got.add(kind)
+                        applied_any = True
+                want = ({"ali"} if ha else set()) | ({"ref"} if hr else set())
+                if got != want and bad is None:
+                    bad = dict(has_ali=ha, has_ref=hr, intersects=sorted(got), expected=sorted(want))
+    except NotEvaluable as e:
+        col.undecided(f"{rel}::SpectDataSet.find_utt_ids: outside the evaluated fragment ({e})")
+        return
+    col.ob("G16", "S11", f"{rel}::SpectDataSet.find_utt_ids::every-sub-directory-in-use-restricts-the-ids", bad is None and applied_any,
+           f"{bad}: an utterance missing from a sub-directory that is in use is still discovered; validation and the statistics then "
+           f"fail (or count) on a file that does not exist", rel, g.line)
 
 
 def _deprecated_boolean_fix(ctx: Ctx):
